@@ -31,6 +31,16 @@ Accept == /\ Running /\ l > Len(Ev)
           /\ verdict' = [verdict EXCEPT !.v = "ACCEPT", !.line = l]
           /\ UNCHANGED <<tid, l>>
 
+\* observational mismatches are noted and validation continues; the scenario is rejected at its end
+AdvNote(bad) == /\ l' = l + 1
+                /\ verdict' = [verdict EXCEPT !.why = @ \cup bad, !.line = IF @ = 0 /\ bad # {} THEN l ELSE @]
+                /\ UNCHANGED tid
+Finish == /\ Running /\ l > Len(Ev)
+          /\ verdict' = [verdict EXCEPT !.v = IF verdict.why = {} THEN "ACCEPT" ELSE "REJECT",
+                                        !.line = IF verdict.why = {} THEN l ELSE @]
+          /\ UNCHANGED <<tid, l>>
+Names(S) == {c[1] : c \in {x \in S : x[2]}}   \* S: set of <<clause name, violated?>>
+
 KnownIds == {Hdr.known[i] : i \in 1..Len(Hdr.known)}
 Known(fid) == fid \in KnownIds
 
